@@ -290,6 +290,8 @@ def c19(ctx, api):
     acc.add('GenTSweep: 120 template families (document, expression and expected value with REP / IDX / NUM holes) instantiated for every n = 0..%d: '
             'a 2/3/4-byte character after n letters under 17 string operations, n distinct variables / fields / arguments / hash keys, every array / object / string function on inputs of size n, '
             'arrays of n elements; checked against the full specification for 4 values of n (TemplateLemma)' % (9000 if thorough else 1100), st, summ)
+    st, summ = api['run_tlc_to_harness'](ctx, 'probe', 'GenProbe', cfg(constants={'Emit': 'TRUE', 'Prop': '"C19"'}), timeout=1500, harness_args=['-timeout', '60s'])
+    acc.add('GenProbe: single inputs with a pinned outcome from the audit round (recorded findings, re-observed on every run)', st, summ)
     return acc.result(RULE_PINNED, extra={'model_checks': ['EnvEqualsSubstitution', 'Parses', 'WrappedNestLemma']})
 
 
@@ -708,6 +710,8 @@ def c09(ctx, api):
     if st['errors'] or st['rc'] != 0:
         raise api['Broken']('LexMachine model check failed: %s' % st['errors'][:3])
     acc.add('LexMachine: the tokeniser as a state machine -- position strictly increases, terminates in Lex(input)', st, None)
+    st, summ = api['run_tlc_to_harness'](ctx, 'probe', 'GenProbe', cfg(constants={'Emit': 'TRUE', 'Prop': '"C09"'}), timeout=1500, harness_args=['-timeout', '60s'])
+    acc.add('GenProbe: single inputs with a pinned outcome from the audit round (recorded findings, re-observed on every run)', st, summ)
     return acc.result('measured on the real code: each case is an expression with an integer parameter at a 64-bit magnitude and its twin '
                       'at 1000 (same expected outcome by the huge-magnitude lemma): equal evaluator steps, time <= 50x + 20 ms, allocation '
                       '<= 8x + 1 MiB of the twin; nesting families must grow at most ~quadratically; non-trivial = the twin outcome is pinned',
